@@ -1,27 +1,27 @@
 #!/bin/bash
-# usage: w7_ingest.sh <ID>   - confirm a wave-7 sub-agent delivery (/tmp/w7-<ID>-out) in a scratch worktree and copy it to /verif/seeded/<ID>/w7-*
+# usage: wave_ingest.sh <ID> [w7|w8]   - confirm a sub-agent delivery of the seventh / eighth wave (/tmp/<wave>-<ID>-out) in a scratch worktree and copy it to /verif/seeded/<ID>/<wave>-*
 # per patch: applies cleanly, builds, unedited test suite passes with it, the demonstration fails with it and passes without it
 set -u
 export GOFLAGS=-mod=mod GOPROXY=off GOSUMDB=off GOTOOLCHAIN=local
-id=$1; src=/tmp/w7-$id-out; dst=/verif/seeded/$id
-log=/tmp/w7-$id-confirm.log; : > $log
+id=$1; wv=${2:-w7}; src=/tmp/$wv-$id-out; dst=/verif/seeded/$id
+log=/tmp/$wv-$id-confirm.log; : > $log
 for n in 1 2; do
   p=$src/patch$n.diff; d=$(ls $src/demo${n}*_test.go $src/demo${n}*.go 2>/dev/null | head -1)
   [ -f "$p" ] || { echo "$id/$n: no patch" | tee -a $log; continue; }
-  wt=$(mktemp -d /tmp/w7c-XXXXXX); rmdir $wt
+  wt=$(mktemp -d /tmp/wvc-XXXXXX); rmdir $wt
   git -C /repo worktree add --detach $wt >/dev/null 2>&1
   pkgdir=$(head -3 "$d" | grep -o '\(lambda\|cmd\)/[A-Za-z0-9_/.-]*' | head -1 | sed 's#/[^/]*\.go$##; s#/$##')
   [ -d "$wt/$pkgdir" ] || pkgdir=$(dirname $(grep '^+++ b/' $p | head -1 | sed 's#+++ b/##'))
-  cp "$d" $wt/$pkgdir/zz_w7demo${n}_test.go
+  cp "$d" $wt/$pkgdir/zz_wavedemo${n}_test.go
   run=$(grep -o 'func Test[A-Za-z0-9_]*' "$d" | sed 's/func //' | paste -sd'|')
-  ( cd $wt/$pkgdir && timeout 600 go test -vet=off -count=1 -run "^($run)\$" . ) > /tmp/w7-$id-$n-clean.out 2>&1; rc_clean=$?
+  ( cd $wt/$pkgdir && timeout 600 go test -vet=off -count=1 -run "^($run)\$" . ) > /tmp/$wv-$id-$n-clean.out 2>&1; rc_clean=$?
   git -C $wt apply $p || { echo "$id/$n: patch does not apply" | tee -a $log; }
   ( cd $wt && go build ./... ) >/dev/null 2>&1; rc_build=$?
-  ( cd $wt/$pkgdir && timeout 600 go test -vet=off -count=1 -run "^($run)\$" . ) > /tmp/w7-$id-$n-patched.out 2>&1; rc_patched=$?
-  rm -f $wt/$pkgdir/zz_w7demo${n}_test.go
-  ( cd $wt && timeout 1500 go test -vet=off -count=1 ./... ) > /tmp/w7-$id-$n-suite.out 2>&1; rc_suite=$?
+  ( cd $wt/$pkgdir && timeout 600 go test -vet=off -count=1 -run "^($run)\$" . ) > /tmp/$wv-$id-$n-patched.out 2>&1; rc_patched=$?
+  rm -f $wt/$pkgdir/zz_wavedemo${n}_test.go
+  ( cd $wt && timeout 1500 go test -vet=off -count=1 ./... ) > /tmp/$wv-$id-$n-suite.out 2>&1; rc_suite=$?
   echo "$id/$n pkg=$pkgdir demo_clean_rc=$rc_clean demo_patched_rc=$rc_patched build_rc=$rc_build suite_rc=$rc_suite" | tee -a $log
   git -C /repo worktree remove --force $wt >/dev/null 2>&1; rm -rf $wt; git -C /repo worktree prune
-  mkdir -p $dst; cp $p $dst/w7-patch$n.diff; cp "$d" $dst/w7-demo${n}_test.go
+  mkdir -p $dst; cp $p $dst/$wv-patch$n.diff; cp "$d" $dst/$wv-demo${n}_test.go
 done
-cp $src/notes.md $dst/w7-notes.md 2>/dev/null
+cp $src/notes.md $dst/$wv-notes.md 2>/dev/null
